@@ -102,6 +102,7 @@ type WConfig struct {
 	KeyUpdate      int       `json:"key_update,omitempty"` // packets per key generation (0 = default)
 	ResetPartial   [2]bool   `json:"reset_partial,omitempty"`
 	Allow0RTT      bool      `json:"allow_0rtt,omitempty"`
+	V6             bool      `json:"v6,omitempty"`        // the endpoints have native IPv6 addresses
 	SchedNum       uint32    `json:"sched_num,omitempty"` // run-next perturbation (n/256)
 }
 
@@ -811,6 +812,16 @@ func wHash(b []byte) uint64 {
 // wBegin prepares per-run global state; wEnd restores it.
 func wBegin(cfg *WConfig) {
 	monotime.VerifSetStart(time.Now().Add(-time.Hour))
+	if cfg.V6 {
+		// native IPv6 addresses; the client and its rebinding address are neighbours in one /64
+		wClientAddr = &net.UDPAddr{IP: net.ParseIP("2001:db8:1:2::a"), Port: 9001}
+		wClientAddr2 = &net.UDPAddr{IP: net.ParseIP("2001:db8:1:2:7777::77"), Port: 7707}
+		wServerAddr = &net.UDPAddr{IP: net.ParseIP("2001:db8:ffff::2"), Port: 443}
+	} else {
+		wClientAddr = &net.UDPAddr{IP: net.IPv4(10, 0, 0, 1), Port: 9001}
+		wClientAddr2 = &net.UDPAddr{IP: net.IPv4(10, 0, 0, 77), Port: 7707}
+		wServerAddr = &net.UDPAddr{IP: net.IPv4(10, 0, 0, 2), Port: 443}
+	}
 	// (drawn from crypto/rand, which the kernel has seeded for this run)
 	var vb [16]byte
 	rand.Read(vb[:])
